@@ -522,3 +522,84 @@ V("loader extension test as positive guard (equivalent)", ["C15", "C06", "C05"],
                     continue
                 if filename.startswith("._") and len(filename) > 2:
                     continue""", "silent")
+
+
+# ------------------------------------------------------------------ variants taken from the mechanical mutation scan (tools/mutscan.py): each
+# survives the 79 tests, breaks the property, and was silent in every check before the rule named here was added / corrected
+V("mutscan: None-guard of the root hash turned into `pass` (verify -dh)", "C09", C, """                if hash_list.process_info.root_media_hash is None:
+                    continue
+                root_hash_entries""", """                if hash_list.process_info.root_media_hash is None:
+                    pass
+                root_hash_entries""", "R9.3")
+V("mutscan: create -sf does not count a failed seal (single file branch)", "C03", C, """            seal_result = seal_file_path(existing_history, path, hash_format_list, session)
+            success = seal_result[hash_format_list[0]].success
+            if not success:
+                num_failed_verifications += 1""", """            seal_result = seal_file_path(existing_history, path, hash_format_list, session)
+            success = seal_result[hash_format_list[0]].success
+            if not success:
+                pass""", "R3.4")
+V("mutscan: diff counts new files with += 0", "C03", C, """                logger.error(f"found new file {relative_path}")
+                num_new_files += 1
+                continue
+
+    exception = test_for_missing_files(not_found_paths, root_path, ignore_spec)
+    if num_failed_verifications > 0:
+        exception = errors.VerificationFailedException()
+    if not exception""", """                logger.error(f"found new file {relative_path}")
+                num_new_files += 0
+                continue
+
+    exception = test_for_missing_files(not_found_paths, root_path, ignore_spec)
+    if num_failed_verifications > 0:
+        exception = errors.VerificationFailedException()
+    if not exception""", "R3.4")
+V("mutscan: diff needs two new files to fail", "C03", C, "    if not exception and num_new_files > 0:", "    if not exception and num_new_files > 1:", "R3.6")
+V("mutscan: verify -pl branch returns without calling its worker", ["C03", "C18"], C, """    if packing_list is not None:
+        verify_entire_folder(
+            root_path, verbose, single_file, packing_list, ignore_list, ignore_spec_file, calculate_only
+        )
+        return""", """    if packing_list is not None:
+        return""", "R3.9")
+V("mutscan: packing-list loader called with swapped arguments", "C18", C, "MHLHistory.load_from_packing_list_path(packing_list_path, root_path)", "MHLHistory.load_from_packing_list_path(root_path, packing_list_path)", "R18.4")
+V("mutscan: flatten drops the append for a path that is new", "C18", C, """                        if found_media_hash == None:
+                            session.append_file_hash(
+                                media_hash.path,
+                                media_hash.file_size,
+                                media_hash.last_modification_date,
+                                hash_entry.hash_format,
+                                hash_entry.hash_string,
+                                action=hash_entry.action,
+                                hash_date=hash_entry.hash_date,
+                            )
+                        else:""", """                        if found_media_hash == None:
+                            pass
+                        else:""", "R18.5")
+V("mutscan: flatten 'format already there' flag set on a different format", "C18", C, "                                if found_hash_entry.hash_format == hash_entry.hash_format:", "                                if found_hash_entry.hash_format != hash_entry.hash_format:", "R18.5")
+V("mutscan: flatten appends when the format is already there", "C18", C, "                            if not hashformat_is_already_there:", "                            if hashformat_is_already_there:", "R18.5")
+V("mutscan: hash command passes format and path swapped", "C01", C, "    result = hash_file(file_path, hash_format)", "    result = hash_file(hash_format, file_path)", "R1.9")
+V("mutscan: reader never attaches the process info", "C10", HX, """                    elif tag == "processinfo":
+                        hash_list.process_info = current_object
+                        current_object = None""", """                    elif tag == "processinfo":
+                        current_object = None""", "R10.6")
+V("mutscan: reader opens an author on every non-author start tag", "C10", HX, """                if tag == "author":
+                    current_object.authors.append(MHLAuthor("-"))""", """                if tag != "author":
+                    current_object.authors.append(MHLAuthor("-"))""", "R10.6")
+V("mutscan: hash date parsed only when the attribute is absent", "C10", HX, "                        if hash_date_string is not None:", "                        if hash_date_string is None:", "R10.6")
+V("mutscan: </ignore> does not pop the process info", "C10", HX, """                    elif tag == "ignore":
+                        hash_list.process_info.ignore_spec = current_object
+                        current_object = object_stack.pop()""", """                    elif tag != "ignore":
+                        hash_list.process_info.ignore_spec = current_object
+                        current_object = object_stack.pop()""", "R10.6")
+V("mutscan: chain reader opens a container on every non-hashlist start tag", "C05", CX, """                if tag == "hashlist":
+                    current_object = MHLChainGeneration()""", """                if tag != "hashlist":
+                    current_object = MHLChainGeneration()""", "R5.8")
+V("mutscan: traversal pattern root defaults inverted", ["C13", "C12"], TR, """    if root is None:
+        root = top""", """    if root is not None:
+        root = top""", "R13.2")
+V("mutscan: session ignores a handed-in action", "C18", G, """        if action != None:
+            hash_entry.action = action
+
+        # a file that is handed in twice""", """        if action != None:
+            pass
+
+        # a file that is handed in twice""", "R18.2")
